@@ -75,21 +75,18 @@ theorem C12_blocktype_independent_integer (h₁ : C08_Supported w₁ n) (h₂ : 
     obtain ⟨cb2, vb2⟩ := C12_enc_canon h₂.1 h₂.2.1 hB
     rw [(C08_cmp h₁ ca1 cb1).1, (C08_cmp h₂ ca2 cb2).1, va1, vb1, va2, vb2]
 
-/-- integer shifts: the same value for every block type — also inside the defect region of D8, because the
-    `>= nbits ⇒ setzero` line does not look at the block type -/
-theorem C12_blocktype_independent_integer_shl (h₁ : C08_Supported w₁ n) (h₂ : C08_Supported w₂ n) (hA : A < 2 ^ n) (k : Int)
-    (hg : 0 ≤ k ∨ -k < n ∨ 0 ≤ toSigned n A) :
+/-- integer shifts with any signed count: the same value for every block type -/
+theorem C12_blocktype_independent_integer_shl (h₁ : C08_Supported w₁ n) (h₂ : C08_Supported w₂ n) (hA : A < 2 ^ n) (k : Int) :
     toNat w₁ (Integer.shl w₁ n (C12_enc w₁ n A) k) = toNat w₂ (Integer.shl w₂ n (C12_enc w₂ n A) k) := by
   obtain ⟨ca1, va1⟩ := C12_enc_canon h₁.1 h₁.2.1 hA
   obtain ⟨ca2, va2⟩ := C12_enc_canon h₂.1 h₂.2.1 hA
-  rw [(Integer.shl_spec h₁.1 h₁.2.1 ca1 k (by rw [va1]; exact hg)).2, (Integer.shl_spec h₂.1 h₂.2.1 ca2 k (by rw [va2]; exact hg)).2, va1, va2]
+  rw [(Integer.shl_spec h₁.1 h₁.2.1 ca1 k).2, (Integer.shl_spec h₂.1 h₂.2.1 ca2 k).2, va1, va2]
 
-theorem C12_blocktype_independent_integer_shr (h₁ : C08_Supported w₁ n) (h₂ : C08_Supported w₂ n) (hA : A < 2 ^ n) (k : Int)
-    (hg : k ≤ 0 ∨ k < n ∨ 0 ≤ toSigned n A) :
+theorem C12_blocktype_independent_integer_shr (h₁ : C08_Supported w₁ n) (h₂ : C08_Supported w₂ n) (hA : A < 2 ^ n) (k : Int) :
     toNat w₁ (Integer.shr w₁ n (C12_enc w₁ n A) k) = toNat w₂ (Integer.shr w₂ n (C12_enc w₂ n A) k) := by
   obtain ⟨ca1, va1⟩ := C12_enc_canon h₁.1 h₁.2.1 hA
   obtain ⟨ca2, va2⟩ := C12_enc_canon h₂.1 h₂.2.1 hA
-  rw [(Integer.shr_spec h₁.1 h₁.2.1 ca1 k (by rw [va1]; exact hg)).2, (Integer.shr_spec h₂.1 h₂.2.1 ca2 k (by rw [va2]; exact hg)).2, va1, va2]
+  rw [(Integer.shr_spec h₁.1 h₁.2.1 ca1 k).2, (Integer.shr_spec h₂.1 h₂.2.1 ca2 k).2, va1, va2]
 
 /-- size conversion: same value for every block type -/
 theorem C12_blocktype_independent_integer_convert {m : Nat} (h₁ : 0 < w₁) (h₂ : 0 < w₂) (hn : 0 < n) (hm : 0 < m) (hA : A < 2 ^ n) :
@@ -170,25 +167,20 @@ theorem C12_blocktype_independent_blockbinary (h₁ : C07_Supported w₁ (2 * n)
 
 end
 
-/-- the full statement for blockbinary `operator<<=` (raw storage identical for every block type) is false: D7.
-    `blockbinary<8>`: 0x4b << 7 keeps 0x80 in a `uint8_t` block and 0x2580 in a `uint16_t` block -/
-def C12_bb_shl_full : Prop := ∀ (w₁ w₂ n A : Nat) (k : Int), 0 < w₁ → 0 < w₂ → 0 < n → A < 2 ^ n →
-    toNat w₁ (BB.shl w₁ n (C12_enc w₁ n A) k) = toNat w₂ (BB.shl w₂ n (C12_enc w₂ n A) k)
-
-theorem C12_bb_shl_counterexample : ¬ C12_bb_shl_full := by
-  intro h
-  have := h 8 16 8 0x4b 7 (by decide) (by decide) (by decide) (by decide)
-  revert this
-  decide
-
-/-- what does hold for `operator<<=` with 0 < s ≤ nbits: the low nbits bits are the same for every block type
-    (the stale bits sit above nbits) -/
-theorem C12_bb_shl_partial {w₁ w₂ n A s : Nat} (h₁ : 0 < w₁) (h₂ : 0 < w₂) (hn : 0 < n) (hA : A < 2 ^ n) (hs : 0 < s) (hsn : s ≤ n) :
-    toNat w₁ (BB.shlPos w₁ n (C12_enc w₁ n A) s) % 2 ^ n = toNat w₂ (BB.shlPos w₂ n (C12_enc w₂ n A) s) % 2 ^ n := by
+/-- blockbinary `operator<<=` — which is also `fixpnt::operator<<=` (`_block <<= shift`) — with any signed count: the result
+    is canonical (no bit at or above nbits; the MSU is masked on both exits since 433c6a0) and the raw storage is the same for
+    every block type -/
+theorem C12_bb_shl {w₁ w₂ n A : Nat} (h₁ : 0 < w₁) (h₂ : 0 < w₂) (hn : 0 < n) (hA : A < 2 ^ n) (k : Int) :
+    Canon w₁ n (BB.shl w₁ n (C12_enc w₁ n A) k) ∧ Canon w₂ n (BB.shl w₂ n (C12_enc w₂ n A) k) ∧
+    toNat w₁ (BB.shl w₁ n (C12_enc w₁ n A) k) = toNat w₂ (BB.shl w₂ n (C12_enc w₂ n A) k) := by
   obtain ⟨ca1, va1⟩ := C12_enc_canon h₁ hn hA
   obtain ⟨ca2, va2⟩ := C12_enc_canon h₂ hn hA
-  rw [(BB.shlPos_spec h₁ hn ca1.shape hs hsn).2, (BB.shlPos_spec h₂ hn ca2.shape hs hsn).2,
-    Nat.mod_mod_of_dvd _ (pow_dvd_storage h₁ hn), Nat.mod_mod_of_dvd _ (pow_dvd_storage h₂ hn), va1, va2]
+  obtain ⟨c1, v1⟩ := BB.shl_int_spec h₁ hn ca1 k
+  obtain ⟨c2, v2⟩ := BB.shl_int_spec h₂ hn ca2 k
+  exact ⟨c1, c2, by rw [v1, v2, va1, va2]⟩
+
+-- the former D7 witness: blockbinary<8> 0x4b << 7 is 0x80 in uint8_t and in uint16_t blocks
+example : toNat 8 (BB.shl 8 8 (C12_enc 8 8 0x4b) 7) = 0x80 ∧ toNat 16 (BB.shl 16 8 (C12_enc 16 8 0x4b) 7) = 0x80 := by decide
 
 /-- fixpnt Modulo division and integer `/`, `%`: the same result for every block type (b ≠ 0; for integer outside the
     one operand pair on which the exact-fit native fast path traps) -/
